@@ -174,6 +174,7 @@ PROPS = {
         batches=[
             B("w_expr.cpp", "expr", quick=14, thorough=240, params="faults=1", oracles=["c02."] + RT_MEM + RT_LIB),
             B("w_expr.cpp", "expr", quick=8, thorough=120, params="faults=0", oracles=["c02."] + RT_MEM + RT_LIB),
+            B("w_expr.cpp", "expr", cfg="S17r", quick=8, thorough=120, params="faults=1", oracles=["c02."] + RT_MEM + RT_LIB),
         ],
         level_text=("Seeded sender-interpreter runs: a random expression tree (depth<=4, <=12 nodes, <=8 scripted leaves) over the real library adaptors, each node re-erased through a harness any_snd so that every edge is a tap; leaves complete inline or later on two actor threads with value/error/done and react to stop or ignore it; an external stop request is placed before start, after k yields or when a chosen leaf has started; faults: throwing callables, a throwing k-th Val copy, spurious weak-CAS failures and wake-ups; the root op state is destroyed inside the root receiver's completion in most runs. C02 oracles: tracked Val objects (construct-on-live, double destroy, use after destroy, leak), every op state of every node destroyed exactly once and never while started-and-uncompleted, arena leak check, shadow memory on every library access after the root op was freed inside its completion."),
         level_note=('Trusted: as C01. Allocation-failure injection is not yet wired into this workload (spawn/allocate are in the scope/future checks).'),
@@ -380,5 +381,40 @@ PROPS = {
                     "is implied by the C12 scheduler query oracle only; typed_via and with_scheduler_affinity outside task<> are not driven."),
         real=["task<> scheduler affinity", "via", "v2 async_mutex, v1/v2 events, async_pass completion hops"],
         stub=["pthread layer (usim)"],
+    ),
+    "C20": dict(
+        title="Build configuration never changes results; async-stack bookkeeping is balanced",
+        compare=[
+            dict(src="w_expr.cpp", name="expr", params="faults=1", quick=6400, thorough=48000,
+                 configs_quick=["S20d", "S17r", "S20r", "S17d"], configs=["S20d", "S17r", "S20r", "S17d", "S20dv", "S17rv", "S20rv", "S17dv"]),
+            dict(src="w_stream.cpp", name="stream", params="", quick=3200, thorough=24000,
+                 configs_quick=["S20d", "S17r"], configs=["S20d", "S17r", "S20r", "S17d"]),
+            dict(src="w_coro.cpp", name="coro", params="", quick=3200, thorough=24000,
+                 configs_quick=["S20d", "S20r"], configs=["S20d", "S20r", "S20dv", "S20rv"]),
+        ],
+        batches=[
+            B("w_expr.cpp", "expr", cfg="S17r", quick=6, thorough=90, params="faults=1", oracles=["c01.", "c02.", "c04.", "c05.", "c12.", "c20."] + RT_ALL),
+            B("w_expr.cpp", "expr", cfg="S20d", quick=6, thorough=90, params="faults=1", oracles=["c20."]),
+            B("w_expr.cpp", "expr", cfg="S20r", quick=0, thorough=90, params="faults=1", oracles=["c01.", "c02.", "c04.", "c05.", "c12.", "c20."] + RT_ALL),
+            B("w_expr.cpp", "expr", cfg="S17d", quick=0, thorough=90, params="faults=1", oracles=["c01.", "c02.", "c04.", "c05.", "c12.", "c20."] + RT_ALL),
+            B("w_expr.cpp", "expr", cfg="S17rv", quick=0, thorough=60, params="faults=1", oracles=["c01.", "c02.", "c04.", "c05.", "c12.", "c20."] + RT_ALL),
+            B("w_expr.cpp", "expr", cfg="S20dv", quick=0, thorough=60, params="faults=1", oracles=["c01.", "c02.", "c04.", "c05.", "c12.", "c20."] + RT_ALL),
+            B("w_stream.cpp", "stream", cfg="S17d", quick=0, thorough=60, oracles=["c13.", "c01.", "c02."] + RT_ALL),
+            B("w_coro.cpp", "coro", cfg="S20rv", quick=0, thorough=60, oracles=["c10.", "c11.", "c01.", "c02."] + RT_ALL),
+        ],
+        level_text=("(1) Trace equality: the same seeds (same plan tapes) of the sender interpreter (with throwing callables, throwing copies and "
+                    "connects, external stop), the stream pipelines and the coroutine interpreter are executed with the non-preemptive "
+                    "strategy in every configuration of {C++17, C++20} x {NDEBUG, debug+async stacks} x {continuation visitation 0,1} (quick "
+                    "tier: four / two of them) and compared run by run: verdict plus an ordered and an order-insensitive digest of every "
+                    "harness-level event (channel and payload at every tap, leaf and receiver). In NDEBUG configurations UNIFEX_ASSERT compiles "
+                    "to nothing, as shipped. (2) Per-configuration exploration: the preemptive exploration with the full model oracles of "
+                    "C01/C02/C04/C05/C12 (C13, C10/C11) runs in the non-default configurations, so all configurations refine the same model. (3) "
+                    "Async-stack balance (debug builds): tryGetCurrentAsyncStackRoot() is null on the starting thread after completion and on "
+                    "every actor thread when it goes idle; the library's own async-stack assertions are verdicts."),
+        level_note=("Trusted: usim stubs; NP runs are deterministic per configuration because thread switches happen only at blocking operations. "
+                    "Not decided: the async_trace chain clause (leaf-to-root receiver chain with CV=1). The NDEBUG+CV configurations only build with "
+                    "async_trace.hpp force-included (with_query_value.hpp uses visit_continuations without including it)."),
+        real=["every adaptor of the interpreter, the stream adaptors and task<> in up to eight build configurations", "async_stack.cpp bookkeeping"],
+        stub=["pthread layer, heap (usim)"],
     ),
 }
